@@ -90,7 +90,10 @@ def checkFix (case impl : List String) : List Fail := Id.run do
           else m0
         if m ≠ img then
           let d := firstDiff m img
-          let tag := if m.length ≠ img.length then "C02," ++ corrTag
+          -- the RSDP's two checksum bytes (8: first 20 bytes, 32: all 36) are C01's
+          let rsdpCks : Bool := t = .rsdp ∧ m.length = img.length ∧
+            (List.range m.length).all fun j => j = 8 ∨ j = 32 ∨ m.getD j 0 = img.getD j 0
+          let tag := if rsdpCks then "C01" else if m.length ≠ img.length then "C02," ++ corrTag
             else if t ≠ .rsdp ∧ t ≠ .facs ∧ d = 9 ∧ (m.drop 10 = img.drop 10) then "C01"
             else if t ≠ .rsdp ∧ t ≠ .facs ∧ 4 ≤ d ∧ d < 8 then "C02"
             else (if i = 0 then layoutTag else corrTag)
